@@ -548,14 +548,14 @@ def _bursts(raw_path):
     return out
 
 
-def write_twin_trace(raw_a, raw_b, out_path):
+def write_twin_trace(raw_a, raw_b, out_path, mark="twins"):
     """interleave the bursts of two builds of the same script: A as instance 0 (leader), B as instance 1"""
     ea, eb = _bursts(raw_a), _bursts(raw_b)
     n = 0
     with open(out_path, "w") as f:
         for (cfga, ba), (cfgb, bb) in zip(ea, eb):
             f.write(json.dumps(cfga, separators=(",", ":")) + "\n")
-            f.write('{"e":"mark","k":"twins"}\n')
+            f.write('{"e":"mark","k":"%s"}\n' % mark)
             j = 0
             for burst in ba:
                 for e in burst:
